@@ -102,6 +102,25 @@ static void descend(int depth, int id, SwArg* sw, unsigned long key)
         PMC_ASSERT(frame[i] == key * 131 + depth * 17 + i, "stack-contents", "task %d: stack frame at depth %d changed across a switch", id, depth);
 }
 
+// state owned by the task's callable: its destructor runs on the task's stack when the runtime destroys the thread
+// function after the body has returned - still as part of the task (pika lets such destructors yield), so the
+// task's identity must be intact there and across a yield inside it
+struct OwnedGuard
+{
+    int id = -1;
+    pika::threads::detail::thread_id_type self{};
+    ~OwnedGuard()
+    {
+        PMC_ASSERT(pika::threads::detail::get_self_ptr() != nullptr && pika::threads::detail::get_self_id() == self, "identity",
+            "task %d: inside the destructor of state owned by the task function the task has no / another identity", id);
+        pika::this_thread::yield();
+        PMC_ASSERT(pika::threads::detail::get_self_ptr() != nullptr && pika::threads::detail::get_self_id() == self, "identity",
+            "task %d: identity changed across a yield inside the destructor of state owned by the task function", id);
+        ++g_guards_done;
+    }
+    static inline int g_guards_done = 0;
+};
+
 // T tasks, each: set identity + task data + stack canaries, then a sequence of switches at call depth
 template <int T, int STACK>
 static void canaries_prog()
@@ -116,10 +135,13 @@ static void canaries_prog()
     c.workers = 2;
     rt::start(c);
     auto sched = rt::ex::with_stacksize(rt::ex::thread_pool_scheduler{}, STACK == 0 ? pika::execution::thread_stacksize::small_ : STACK == 1 ? pika::execution::thread_stacksize::medium : STACK == 2 ? pika::execution::thread_stacksize::large : pika::execution::thread_stacksize::huge);
+    OwnedGuard::g_guards_done = 0;
     for (int id = 0; id < T; ++id)
-        rt::ex::execute(sched, [&, id, seq, depth] {
+        rt::ex::execute(sched, [&, id, seq, depth, guard = std::make_shared<OwnedGuard>()] {
             rt::watch_self_full(id == 0 ? "task0" : id == 1 ? "task1" : "task2");
             auto self = pika::threads::detail::get_self_id();
+            guard->self = self;
+            guard->id = id;
             unsigned long key = 0x1000 + id * 0x111;
             pika::threads::detail::set_thread_data(self, key);
             volatile char local_marker = (char) id;
@@ -149,6 +171,7 @@ static void canaries_prog()
     rt::spawn([&] { pika::this_thread::yield(); for (int i = 0; i < T; ++i) g_ev[i].set(); });
     rt::stop();
     PMC_ASSERT(s.finished == T, "task-lost", "%d of %d tasks finished", s.finished, T);
+    PMC_ASSERT(OwnedGuard::g_guards_done == T, "task-lost", "%d of %d task functions were destroyed (with their owned state) by the time the runtime had stopped", OwnedGuard::g_guards_done, T);
     pmc_outcome("migrated=%d", s.migrations > 0);
 }
 
